@@ -204,6 +204,9 @@ structure Mnt where
   /-- ghost (not in `MountPointData`): id of the backend whose `mount()` produced this record;
       no model function reads it, it only lets the theorems say "its backend" -/
   bk : Nat
+  /-- ghost: the per-mount mapping in force for the slot when this record was made (for `mount`
+      that is the mapping given to this very call, see `Thm.C14.mount_records_given_map`) -/
+  map : Option Map
   deriving Repr, DecidableEq, Inhabited
 
 structure Opts where
@@ -381,7 +384,7 @@ def State.insertMountLocked (s : State) (b : Bk) (idx : Nat) (path : Name) : Opt
           | some m => upd s1.supers m.idx none
           | none => s1.supers
         let supers := upd supers idx (some b)
-        let m : Mnt := { idx := idx, ino := b.rootIno, rootEntry := ent, path := path, bk := b.id }
+        let m : Mnt := { idx := idx, ino := b.rootIno, rootEntry := ent, path := path, bk := b.id, map := s1.mountMaps idx }
         some ({ s1 with supers := supers, mnts := upd s1.mnts inode (some m) }, .ok ())
 
 def mountCall (b : Bk) : Call := { bk := b.id, method := .mount, uid := 0, gid := 0, args := [] }
